@@ -229,7 +229,7 @@ def run(chk, tier, seed):
     quick = tier == "quick"
     sc = tlc_cases(chk, "structure", 4 if quick else 6, 0)
     tc = tlc_cases(chk, "trust", 0, 0)
-    lc = tlc_cases(chk, "lookup", 0, 2 if quick else 3)
+    lc = tlc_cases(chk, "lookup", 0, 3 if quick else 4)
     n1 = structure(chk, exe, sc, R, w)
     n2, skipped = trust(chk, exe, tc, R, w, tier, rng)
     n3 = lookups(chk, exe, lc, R, w, rng)
@@ -237,8 +237,8 @@ def run(chk, tier, seed):
     chk.add(evaluations=n1 + n2 + n3, distinct_nontrivial=n1 + n2 + n3, structure_cases=len(sc), trust_cases=len(tc), lookup_cases=len(lc), trust_variants=n2, lookup_queries=n3,
             unrealised_trust_cases=skipped, exhaustive=not quick,
             rule="all record sequences of length <= %d over 6 record kinds (+ magic variants); all verification cases within 2 deviations of the good one (a byte alteration = every %s octet of "
-                 "the region for the single deviation, 6 sampled octets in combinations); all publication lists of length <= %d over 3 times x 2 hashes x 5 certificate lists x all queries, on 3 "
-                 "time scales up to 2^64-1" % (4 if quick else 6, "7th" if quick else "", 2 if quick else 3))
+                 "the region for the single deviation, 6 sampled octets in combinations); all publication lists (every order) of length <= %d over 3 times x 2 hashes, 5 certificate lists, all queries, on 3 "
+                 "time scales up to 2^64-1" % (4 if quick else 6, "7th" if quick else "", 3 if quick else 4))
     chk.assumptions += ["X.509 path validation and PKCS#7 parsing are OpenSSL's; the model treats `chains to an anchor` as an attribute realised with real certificates (wrong issuer key, self-signed, missing intermediate, expired)",
                         "KSI_receivePublicationsFile (download) is not bound: no HTTP transport in the sandbox", "a subject attribute occurring twice in the signer certificate is not generated"]
 
